@@ -706,6 +706,7 @@ class GAM(Core, MetaTermMixin):
         y = deepcopy(y).astype('float64')
         y[y == 0] += 0.01  # edge case for log link, inverse link, and logit link
         y[y == 1] -= 0.01  # edge case for logit link
+        y[y == getattr(self.distribution, 'levels', 1)] -= 0.01  # ... with levels
 
         y_ = self.link.link(y, self.distribution)
         y_ = make_2d(y_, verbose=False)
